@@ -127,6 +127,11 @@ class Engine:
                     self.one(family, ch, call, ("evict", i))
                 if kind == "pre_attach" and isinstance(arg, int) and len(ch) > 2:
                     self.one(family, ch, call, ("admit", i))
+        if not self.ctx.assertions and call[0] in ("delchildren", "setchildren") and len(ch) > 2 and clean.outcome == "returned" and clean.snaps and clean.snaps[0] is not None:
+            # assertion mode off only: a per-child _post_detach hook leaves a tombstone child in the parent it left
+            for i, (kind, n, arg) in enumerate(clean.events):
+                if kind == "post_detach" and arg == call[1]:
+                    self.one(family, ch, call, ("tombstone", i))
         if self.lockstep and call[0] in ("delchildren", "setchildren"):
             # lock step only (no model is needed): a _pre_detach_children hook that re-homes one of the children
             for i, (kind, n, arg) in enumerate(clean.events):
